@@ -135,40 +135,23 @@ theorem deliverNow_addr (s : Sys) (t : Nat) (ev : String) (p : Nat) :
 theorem resolve_deliverNow (s : Sys) (t : Nat) (ev : String) (p : Nat) (spec : String) :
     resolve (deliverNow s t ev) p spec = resolve s p spec := by
   have ⟨hk, hs, hp, _, _, _⟩ := deliverNow_addr s t ev p
-  unfold resolve sourceMatch parentMatch
-  rw [deliverNow_registry, hk, hs, hp]
+  have hid : ((deliverNow s t ev).get p).id = (s.get p).id := by
+    unfold deliverNow
+    split
+    · split
+      · split <;> exact get_upd_proj (·.id) s t p _ (fun _ => rfl)
+      · rfl
+    · split
+      · rfl
+      · exact get_upd_proj (·.id) s t p _ (fun _ => rfl)
+  unfold resolve sourceMatches parentMatch
+  rw [deliverNow_registry, hk, hs, hp, hid]
 
 /-! ### registry -/
 
 theorem registry_upd (s : Sys) (u : Nat) (f : Actor → Actor) : (s.upd u f).registry = s.registry := rfl
 
 theorem registry_drainAll (busy : Option Nat) (s : Sys) : (drainAll busy s).registry = s.registry := rfl
-
-theorem registry_stopTail (busy : Option Nat) (s : Sys) (x : Nat) : (stopTail busy s x).registry = s.registry := by
-  unfold stopTail
-  split
-  · rfl
-  · unfold stopLoop stopTasks
-    split
-    · split <;> rfl
-    · split <;> rfl
-
-theorem registry_stopA (busy : Option Nat) (fuel : Nat) (s : Sys) (x : Nat) : (stopA busy fuel s x).registry = s.registry := by
-  induction fuel generalizing s x with
-  | zero => rfl
-  | succ fuel ih =>
-    unfold stopA
-    split
-    · rw [registry_stopTail]
-      have : ∀ (l : List (String × Nat)) (acc : Sys), (l.foldl (fun a kv => stopA busy fuel a kv.2) acc).registry = acc.registry := by
-        intro l
-        induction l with
-        | nil => intro acc; rfl
-        | cons kv r ihl => intro acc; simp only [List.foldl_cons]; rw [ihl, ih]
-      show (clearKids _ x).registry = _
-      unfold clearKids
-      rw [registry_upd, this]; rfl
-    · rfl
 
 /-! ### descendants of a child are not affected by unlinking it from its parent -/
 
@@ -187,5 +170,42 @@ theorem desc_unlink {s : Sys} (hwf : WF s) (p x : Nat) {y d : Nat} (h : Desc s y
     have hne : y ≠ p := by omega
     have hc := hwf y kv hkv
     exact Desc.kid kv (by rw [unlinkChild_get_ne s p x y hne]; exact hkv) (ih (by omega))
+
+/-! ### addressing: the segments of a child id that count, the matches of the two fallbacks -/
+
+theorem ownSegsL_prefix (pid rest : List Char) : ownSegsL pid (pid ++ ':' :: rest) = splitColonL rest := by
+  unfold ownSegsL
+  have h1 : (pid ++ [':']).isPrefixOf (pid ++ ':' :: rest) = true := by
+    rw [List.isPrefixOf_iff_prefix]; exact ⟨rest, by simp⟩
+  rw [if_pos h1]
+  congr 1
+  have : pid ++ ':' :: rest = (pid ++ [':']) ++ rest := by simp
+  rw [this]; exact List.drop_left' (by simp)
+
+/-- F54: for a child id of the shape `<parent id>:<rest>` — every id a spawn produces — the segments that
+    take part in the bare-key match are those of `<rest>`; the parent's own id plays no role -/
+theorem ownSegs_prefix (pid rest : String) : ownSegs pid (pid ++ ":" ++ rest) = segs rest := by
+  unfold ownSegs segs
+  have : (pid ++ ":" ++ rest).toList = pid.toList ++ ':' :: rest.toList := by
+    rw [String.toList_append, String.toList_append]
+    have : ":".toList = [':'] := rfl
+    rw [this]; simp
+  rw [this, ownSegsL_prefix]
+
+theorem mem_segMatches (pid : String) (kids : List (String × Nat)) (spec : String) (u : Nat) :
+    u ∈ segMatches pid kids spec ↔ ∃ kv ∈ kids, spec ∈ ownSegs pid kv.1 ∧ kv.2 = u := by
+  unfold segMatches
+  simp only [List.mem_map, List.mem_filter, List.contains_iff_mem]
+  constructor
+  · rintro ⟨kv, ⟨h1, h2⟩, h3⟩; exact ⟨kv, h1, h2, h3⟩
+  · rintro ⟨kv, h1, h2, h3⟩; exact ⟨kv, ⟨h1, h2⟩, h3⟩
+
+theorem mem_sourceMatches (a : Actor) (spec : String) (u : Nat) :
+    u ∈ sourceMatches a spec ↔ ∃ kv ∈ a.sources, kv.2 = spec ∧ dlookup kv.1 a.kids = some u := by
+  unfold sourceMatches
+  simp only [List.mem_filterMap, List.mem_filter, decide_eq_true_eq]
+  constructor
+  · rintro ⟨kv, ⟨h1, h2⟩, h3⟩; exact ⟨kv, h1, h2, h3⟩
+  · rintro ⟨kv, h1, h2, h3⟩; exact ⟨kv, ⟨h1, h2⟩, h3⟩
 
 end XSM.Actors
